@@ -106,6 +106,12 @@ def replay(hist, *, stop, adapter, unit="seconds", compress=False, srv=None, tea
                             bad["faithful_prediction"] = h["row"]
                     if bad is None and probe:
                         bad = do_probe()
+            elif op == "StepLost":
+                if not srv.step_lost(h["i"], h["set"], sess.get(h["i"], "base"), h["frac"]):
+                    return None         # this adapter does not install by rename: the fault cannot be placed, nothing to compare
+                if observe is not None:
+                    observe.append((n, op, h["i"], None, h["frac"]))
+                continue
             elif op == "Steps":
                 sc = sess.get(h["i"], "base")
                 st, d = srv.steps(h["i"], h["n"], h["set"], sc)
